@@ -108,7 +108,7 @@ def run(seq):
     sessions = {'A': 101, 'B': 202}
     svcs = {k: make_service(store, v, 'host' + k) for k, v in sessions.items()}
     errs = []
-    registered = {}          # (service, rsrc_id) -> set of paths recorded by its create requests
+    truth = {}               # (service, path) -> container the node was last registered for (independent ground truth)
     for op in seq:
         kind, who = op[0], op[1]
         if kind == 'expire':
@@ -139,8 +139,23 @@ def run(seq):
             if what == 'create-persistent':
                 errs.append('%s: %s created as a persistent node' % (op, path))
         app = ps.appcfg.app_name(op[2])
+        if kind == 'create' and not errs:
+            # ground truth, independent of the service's own bookkeeping: the nodes a create request (re)registered
+            # belong to that container from now on
+            touched = {path for sess, what, path in store.log[mark:] if what in ('create', 'set')}
+            data = op[3]
+            wanted = [ps.z.path.running(app)]
+            for e in data.get('endpoints', []):
+                wanted.append(ps.z.path.endpoint(app, e.get('proto', 'tcp'), e.get('name', str(e['port']))))
+            if data.get('identity_group'):
+                wanted.append(ps.z.path.identity_group(data['identity_group'], str(data.get('identity'))))
+            for p in wanted:
+                if p in store.nodes and store.nodes[p][1] == me and p in svc.presence.get(app, {}):
+                    truth[(who, p)] = op[2]
         if kind == 'delete':
-            mine = {p for p, r in before_presence.get(app, {}).items() if r == op[2]}
+            mine = {p for (w, p), r in truth.items() if w == who and r == op[2]}
+            for (w, p) in [k for k, r in truth.items() if k[0] == who and r == op[2]]:
+                del truth[(w, p)]
             for sess, what, path in store.log[mark:]:
                 if what == 'delete' and path not in mine:
                     errs.append('%s: removed %s which was not registered for this container' % (op, path))
@@ -165,8 +180,9 @@ def rand_seq(rng):
             data = {'endpoints': [{'name': rng.choice(['http', 'ssh']), 'port': 80, 'real_port': rng.choice([5000, 5001]),
                                    'proto': 'tcp'} for _ in range(rng.randint(0, 2))]}
             if rng.random() < 0.5:
+                # identities are unique per instance (C05): successive containers of one instance share theirs
                 data['identity_group'] = 'proid.grp'
-                data['identity'] = rng.choice([0, 1])
+                data['identity'] = int(cont.split('-')[1])
             seq.append(('create', who, cont, data))
         elif c < 0.85:
             seq.append(('delete', who, cont))
